@@ -43,6 +43,10 @@ def run(rep):
                        "values with references are compared after path tokens are normalised on both sides (C03 judges the paths)"]
     _logic.run(rep, PROP, "binds", _canaries)
     part_parameters(rep)
+    # the per-type decision table of the parameters cell (TypeParams.tla), this property's clauses
+    from harness.props import _typeparams
+
+    _typeparams.run(rep, PROP)
     # a logic attribute given to one question of a live Survey object (builder API) belongs to that question's bind only,
     # in every later render (SurveyObject.tla: Mark)
     from harness.props import c02
@@ -106,6 +110,10 @@ def replay(rep, case):
         from harness.props import c02
 
         return c02.replay_history(rep, PROP, c)
+    if c.get("typeparams"):
+        from harness.props import _typeparams
+
+        return _typeparams.replay(rep, PROP, c)
     if c.get("parameters"):
         from harness import corpus, paramgen, tlc
 
